@@ -694,6 +694,25 @@ static std::vector<Prog> programs()
                    viol("C11:reinit:application-servers-overridden", fmt("after ares_set_servers_ports_csv(\"10.0.0.2:53\") || ares_reinit the channel's servers are \"%s\"", csv ? csv : "(null)"));
                  ares_free_string(csv);
                } });
+  v.push_back({ "P12-save-options-and-dup-vs-set-servers", "c11", 0, 1, 1, 2, [](ares_channel_t *ch) {
+                 // one thread snapshots the configuration (ares_save_options, ares_dup) while another replaces the
+                 // server list and the sortlist: both are documented as safe on a channel shared between threads
+                 Client *a = spawn([ch] {
+                   struct ares_options o;
+                   int                 mask = 0;
+                   memset(&o, 0, sizeof o);
+                   if (ares_save_options(ch, &o, &mask) == ARES_SUCCESS) ares_destroy_options(&o);
+                   ares_channel_t *d = nullptr;
+                   if (ares_dup(&d, ch) == ARES_SUCCESS) ares_destroy(d);
+                 });
+                 Client *b = spawn([ch] {
+                   ares_set_servers_ports_csv(ch, "10.0.0.2:53");
+                   ares_set_sortlist(ch, "10.9.0.0/255.255.0.0");
+                   ares_set_servers_ports_csv(ch, "10.0.0.1:53,10.0.0.2:53,10.0.0.3:53");
+                 });
+                 join(a);
+                 join(b);
+               } });
   v.push_back({ "P10-two-sockets-replaced-at-once-one-query-per-socket", "c11", 0, 0, 1, 1, [](ares_channel_t *ch) {
                  // two queries, each on its own socket, towards a silent server; a client thread then switches the channel
                  // to a server that answers: both connections are closed and replaced under one hold of the channel
